@@ -329,7 +329,7 @@ func TestC10(t *testing.T) {
 						for {
 							select {
 							case f := <-b.TunDevice().SendFrame:
-								if bytes.Equal(f.MessageData(), pk) {
+								if bytes.Equal(kit.TunBytesOrNil(f), pk) {
 									got++
 								}
 								f.ReturnToPool()
@@ -397,7 +397,7 @@ func TestC10(t *testing.T) {
 				for {
 					select {
 					case f := <-b.TunDevice().SendFrame:
-						if bytes.Equal(f.MessageData(), pk) {
+						if bytes.Equal(kit.TunBytesOrNil(f), pk) {
 							got++
 						}
 						f.ReturnToPool()
@@ -541,7 +541,7 @@ func TestC10(t *testing.T) {
 							for {
 								select {
 								case f := <-b.TunDevice().SendFrame:
-									if bytes.Equal(f.MessageData(), pk) {
+									if bytes.Equal(kit.TunBytesOrNil(f), pk) {
 										tun++
 									}
 									f.ReturnToPool()
